@@ -1017,6 +1017,8 @@ func main() {
 	if *out != "" {
 		os.MkdirAll(*out, 0o755)
 		writeIfChanged(filepath.Join(*out, "Catalogue.lean"), sb.String())
+		emitDelegation(*repo, *out) // delegation.go
+		emitPipe(*repo, *out)       // pipe.go
 		js, _ := json.MarshalIndent(facts, "", " ")
 		writeIfChanged(filepath.Join(*out, "catalogue.json"), string(js)+"\n")
 	} else {
